@@ -1226,6 +1226,10 @@ def call_method(interp, obj, name, args, kwargs, node):
             return obj
     if isinstance(obj, LinV) and name == "as_long":
         return obj
+    if isinstance(obj, LinV) and name == "is_symbol" and not args:
+        # pysmt term: a symbol is exactly one symbolic integer variable; Int(..) constants and sums are not
+        terms, c = obj.lin
+        return Const(len(terms) == 1 and c == 0 and terms[0][1] == 1 and isinstance(terms[0][0], tuple) and terms[0][0][:1] == ("isym",))
     interp.log("call.method", node, obj=obj, method=name, args=tuple(args), kwargs=dict(kwargs))
     return Sym(("mcall", desc(obj), name, tuple(desc(a) for a in args), interp.fresh_id("c")))
 
